@@ -8,6 +8,7 @@ CONSTANTS
   Toggles = TRUE
   DefaultMax = 2
   LegacyPullZero = FALSE
+  LegacyTrimRaw = FALSE
   GenDepth = 0
   Cover = TRUE
 INVARIANT ImplRefinesReq
